@@ -28,6 +28,8 @@ def run(chk, tier):
         F = load(chk, cfg)
         from props import builder as B
         B.conversion_table(chk, F, 'R12.7', cfg)
+        # R12.10 the converted value is what gets stored as the response (filed, never dropped on the way)
+        B.returner_error_latched(chk, F, 'R12.10', cfg)
         # ---- R12.1 bounds
         once = impl_of(F, r'^output::IntoReturnOnce$', ref_rx=r'IntoReturnOnce<output::owning::Owning<T>>')
         multi = impl_of(F, r'^output::IntoReturn$', ref_rx=r'IntoReturn<output::owning::Owning<T>>')
